@@ -442,10 +442,11 @@ func c01Run(c *core.Ctx) *core.Result {
 		// transfer of a legal tree that fails says the workload is off
 		// the property speaks about successful pairs only: a failed transfer
 		// is counted (diagnostic), not a violation. Known timing-dependent
-		// failures: the destination walker meets a directory that was just
-		// replaced by a looping symlink (ELOOP); an unprivileged receiver's
-		// content writer races with the chmod of another member of the same
-		// read-only link group.
+		// failure: the destination walker meets a directory that was just
+		// replaced by a looping symlink (ELOOP). (An unprivileged receiver's
+		// content writer racing with the chmod of another member of the same
+		// read-only link group used to be another one: that is C07's subject
+		// and was repaired, see known_findings.json.)
 		r.Count("transfers_failed_diagnostic", 1)
 		r.Inconclusive = fmt.Sprintf("fault-free transfer failed (not covered by the statement): recv=%v", res.RecvErr)
 		return r
